@@ -1032,6 +1032,10 @@ def gen_dns(runner, tier, seed):
     for t, c in ((16, 1), (1, 3), (28, 1), (255, 1), (1, 255), (0, 0), (2, 1), (1, 2)):
         pl.append(dns_query(0x4242, 0x0100, [(b"www", b"example", b"org"), (b"x",)], qtypes=[(1, 1), (t, c)]))
         pl.append(dns_query(0x4242, 0x0100, [(b"q",)], qtypes=[(t, c)]))
+    for bit in range(16):
+        pl.append(dns_query(0x4300 + bit, 0x0100, [(b"bit", b"t")], qtypes=[(1 ^ (1 << bit), 1)]))
+        pl.append(dns_query(0x4400 + bit, 0x0100, [(b"bit", b"c")], qtypes=[(1, 1 ^ (1 << bit))]))
+        pl.append(dns_query(0x4500 + bit, 0x0100, [(b"ok",), (b"bit", b"c")], qtypes=[(1, 1), (1, 1 ^ (1 << bit))]))
     for n in range(0, len(base)):
         pl.append(base[:n])
     pl.append(base + b"\0")
@@ -1148,6 +1152,16 @@ def gen_rpc(runner, tier, seed):
     for ch in chunks(flows, 500):
         s.reset()
         tcp_batch(s, ch)
+    # framing and transport crossed: record-marked calls in datagrams, unframed calls as first TCP segment
+    s = runner.session(cfg_plain(), "rpc framing crossed with transport")
+    fr, flows = [], []
+    for v in (2, 3, 4, 9):
+        for pr in (0, 3, 4, 7):
+            fr.append(peer4().udp(21000 + len(fr), 111, rpc_call(xid(), 100000, v, pr, tcp=True)))
+            fr.append(peer6().udp(21000 + len(fr), 111, rpc_call(xid(), 100000, v, pr, tcp=True)))
+            flows.append((r.choice([peer4(), peer6()]), 22000 + len(flows), 111, 3, [rpc_call(xid(), 100000, v, pr)]))
+    s.send(fr)
+    tcp_batch(s, flows)
     # the longest replies: DUMP (v3/v4) to the longest address texts, over TCP and UDP
     s = runner.session(cfg_plain(), "rpc long replies")
     flows, fr = [], []
@@ -1332,6 +1346,21 @@ def gen_replies(runner, tier, seed):
                         nxt.append((g, c + 1 if marked else 0, marked))
             chains = nxt
             depth += 1
+        # reply-typed and other messages as *later* segments of flows already identified as STUN / SMB / SSH / RPC
+        firsts = [stun(1, STUN_MAGIC + rb(r, 12), stun_attr(0x8022, rb(r, 252))), smb1_negotiate([b"NT LM 0.12"]), smb2_negotiate([0x0202, 0x0210]),
+                  ssh_ident(), rpc_call(0x61000000 | r.randrange(1 << 24), vers=2, proc=0, tcp=True)]
+        seconds = [stun(0x0011, STUN_MAGIC + rb(r, 12)), stun(0x0101, STUN_MAGIC + rb(r, 12), stun_attr(1, b"\0\1\x12\x34\1\2\3\4")), stun(0x0111, rb(r, 16)),
+                   stun(0x0002, STUN_MAGIC + rb(r, 12)), smb1_negotiate([b"NT LM 0.12"], flags=0x98), smb1_session_setup(flags=0x80), smb2_negotiate([0x0202], flags=1),
+                   smb2_session_setup(flags=3), nbt(smb1_header(0x75) + b"\0\0\0"), nbt(smb2_header(5) + struct.pack("<HH", 4, 0)),
+                   rpc_call(7, mtype=1, tcp=True), b"SSH-2.0-x\n", dns_query(flags=0x8180)]
+        fl2, plan2 = [], []
+        for fi, first in enumerate(firsts):
+            for sec in seconds:
+                fl2.append(Flow(r.choice([p4, p6]), 14000 + len(fl2), r.choice([80, 445, 3478]), r.randrange(1 << 32)))
+                plan2.append((first, sec))
+        live3 = open_flows(s, fl2)
+        s.send([f.data(pl[0]) for f, pl in zip(fl2, plan2) if f.ck is not None])
+        s.send([f.data(pl[1]) for f, pl in zip(fl2, plan2) if f.ck is not None])
         # application replies re-sent on validated TCP flows
         flows = []
         for i, q in enumerate(app_requests(r, tcpmode=True)):
